@@ -131,6 +131,8 @@ fn panic_site(p: &(dyn std::any::Any + Send)) -> String {
         "deadlines.remove: invalid key".into()
     } else if msg.contains("overflow when adding duration to instant") {
         "Instant + Duration overflow".into()
+    } else if msg.contains("a formatting trait implementation returned an error") {
+        "span field formatting failed".into()
     } else {
         format!("other: {}", msg.replace(' ', "_"))
     }
@@ -395,7 +397,7 @@ pub enum Op {
     PollExec(usize),
     DropExec(usize),
     Finish(usize, Result<u64, usize>),
-    InjectReq { id: u64, d: u64, tid: u128, span: u64, sampled: bool, body: u64 },
+    InjectReq { id: u64, d: u128, tid: u128, span: u64, sampled: bool, body: u64 },
     InjectCancel { id: u64, tid: u128, span: u64, sampled: bool },
     InjectErr,
     Eof,
@@ -544,12 +546,13 @@ pub struct Params {
     pub faults: bool,
     pub extreme: bool,
     pub long: bool,
+    pub sub: u8,
 }
 
 impl Params {
     pub fn header(&self) -> String {
         format!(
-            "limit={} resp={} cap={} coupled={} wo={} faults={} extreme={} long={}",
+            "limit={} resp={} cap={} coupled={} wo={} faults={} extreme={} long={} sub={}",
             self.limit.map(|l| l.to_string()).unwrap_or("none".into()),
             self.resp,
             self.cap,
@@ -557,7 +560,8 @@ impl Params {
             self.wo as u8,
             self.faults as u8,
             self.extreme as u8,
-            self.long as u8
+            self.long as u8,
+            self.sub
         )
     }
     pub fn from_header(h: &str) -> Params {
@@ -571,6 +575,7 @@ impl Params {
             faults: g("faults", 0) == 1,
             extreme: g("extreme", 0) == 1,
             long: g("long", 0) == 1,
+            sub: g("sub", 0) as u8,
         }
     }
 }
@@ -631,9 +636,9 @@ fn gen_op(rng: &mut Rng, sv: &Server, g: &mut Gen, p: &Params) -> Op {
             };
             g.deadlines.push(d);
             let d = if p.extreme && rng.chance(1, 3) {
-                g.now + *rng.pick(&[70_000_000_000_000_000u64, 315_360_000_000_000_000, 3_153_600_000_000_000_000]) + g.nreq * 2_000_000
+                (g.now + g.nreq * 2_000_000) as u128 + *rng.pick(&crate::cli::EXTREME_DEADLINES_NS)
             } else {
-                d
+                d as u128
             };
             let id = if p.extreme && rng.chance(1, 4) { u64::MAX - g.nreq } else { id };
             Op::InjectReq { id, d, tid: 200 + g.nreq as u128, span: 8000 + g.nreq, sampled: rng.chance(1, 2), body: 600 + g.nreq }
@@ -684,6 +689,7 @@ pub fn run_script(out: &mut Out, idx: u64, p: &Params, rng: &mut Rng, script: Op
     let _g = rt.enter();
     crate::cli::BASE.with(|b| *b.borrow_mut() = Some(tarpc::verif_hooks::now()));
     simt::take_log();
+    let _sub = crate::cli::install_subscriber(p.sub);
     let mut sv = Server::new("s0", p.limit, p.resp, p.cap, p.coupled);
     let mut g = Gen { now: 0, nreq: 0, ids: vec![], deadlines: vec![], answered: vec![] };
     let mut i = 0usize;
@@ -738,6 +744,7 @@ pub fn generate(out: &mut Out, seed: u64, scripts: u64, len: usize, wo: bool, fa
             faults,
             extreme,
             long,
+            sub: crate::cli::GEN_SUB.load(std::sync::atomic::Ordering::SeqCst),
         };
         run_script(out, idx, &p, &mut rng, None, len);
     }
